@@ -208,6 +208,44 @@ func (p *Program) normaliseOnce(known map[string]bool, round int) (map[string][]
 				}
 			}
 		}
+		// `if A && H(x) { body }` (no else, no init): H is called only when A holds;
+		// written `if A { if H(x) { body } }` the inner test is a continuation form
+		if cand.exprOnly == nil {
+			if be, isB := p.Parent(cs.In.File, cs.Call).(*ast.BinaryExpr); isB && be.Y == ast.Expr(cs.Call) && be.Op == token.LAND {
+				var top ast.Node = be
+				for {
+					if pe, isP := p.Parent(cs.In.File, top).(*ast.ParenExpr); isP {
+						top = pe
+						continue
+					}
+					break
+				}
+				if ifs, isIf := p.Parent(cs.In.File, top).(*ast.IfStmt); isIf && ifs.Cond == top.(ast.Expr) && ifs.Init == nil && ifs.Else == nil && !busyStmt[ifs] {
+					okCtx := false
+					switch p.Parent(cs.In.File, ifs).(type) {
+					case *ast.BlockStmt, *ast.CaseClause, *ast.CommClause:
+						okCtx = true
+					}
+					istart, iend := file.Offset(ifs.Pos()), file.Offset(ifs.End())
+					for _, o := range edits[fname] {
+						if istart < o.end && o.start < iend {
+							okCtx = false
+						}
+					}
+					if okCtx {
+						busyStmt[ifs] = true
+						xs := string(b[file.Offset(be.X.Pos()):file.Offset(be.X.End())])
+						cstr := string(b[file.Offset(cs.Call.Pos()):file.Offset(cs.Call.End())])
+						body := string(b[file.Offset(ifs.Body.Pos()):file.Offset(ifs.Body.End())])
+						edits[fname] = append(edits[fname], textEdit{istart, iend, "if " + xs + " { if " + cstr + " " + body + " }"})
+						everInlined[cand.fs.Name] = true
+						wrappedIn[cs.In.Root()] = true
+						notes = append(notes, fmt.Sprintf("condition with a short-circuit call of %s in %s at %s split into nested tests", cand.fs.Name, cs.In.Root().Name, p.PosStr(cs.Call.Pos())))
+						continue
+					}
+				}
+			}
+		}
 		// `go H(a, b)`: the arguments are evaluated now, the call runs in the goroutine:
 		// `go func(p0 A, p1 B) { H(p0, p1) }(a, b)`, whose call the next round inlines
 		if gs, isGo := p.Parent(cs.In.File, cs.Call).(*ast.GoStmt); isGo && gs.Call == cs.Call {
@@ -1907,14 +1945,14 @@ func (p *Program) hoistableCondCall(cs *CallSite) (ast.Stmt, bool) {
 			continue
 		case *ast.UnaryExpr:
 			if x.Op == token.ARROW || x.Op == token.AND {
-				return nil, false
+				return hoistFail()
 			}
 			cur = x
 			continue
 		case *ast.BinaryExpr:
 			if x.Y == cur {
 				if x.Op == token.LAND || x.Op == token.LOR || !simpleExpr(x.X) {
-					return nil, false
+					return hoistFail()
 				}
 			}
 			cur = x
@@ -1922,11 +1960,11 @@ func (p *Program) hoistableCondCall(cs *CallSite) (ast.Stmt, bool) {
 		case *ast.CallExpr:
 			// an argument: the function and the arguments before it are evaluated first
 			if x.Fun == cur {
-				return nil, false
+				return hoistFail()
 			}
 			if !accessPath(x.Fun) {
 				if _, isLit := x.Fun.(*ast.FuncLit); isLit || !simpleExpr(x.Fun) {
-					return nil, false
+					return hoistFail()
 				}
 			}
 			for _, a := range x.Args {
@@ -1934,15 +1972,18 @@ func (p *Program) hoistableCondCall(cs *CallSite) (ast.Stmt, bool) {
 					break
 				}
 				if !simpleExpr(a) {
-					return nil, false
+					return hoistFail()
 				}
 			}
 			cur = x
 			continue
 		case *ast.AssignStmt:
 			for _, l := range x.Lhs {
+				if id, isId := l.(*ast.Ident); isId && id.Name == "_" {
+					continue
+				}
 				if !accessPath(l) {
-					return nil, false
+					return hoistFail()
 				}
 			}
 			for _, r := range x.Rhs {
@@ -1950,16 +1991,16 @@ func (p *Program) hoistableCondCall(cs *CallSite) (ast.Stmt, bool) {
 					break
 				}
 				if !simpleExpr(r) {
-					return nil, false
+					return hoistFail()
 				}
 			}
 			if len(x.Rhs) == 1 && unparen(x.Rhs[0]) == ast.Expr(cs.Call) {
-				return nil, false // the plain form, inlined as it is
+				return hoistFail() // the plain form, inlined as it is
 			}
 			return p.hoistTarget(file, x, cs)
 		case *ast.ExprStmt:
 			if unparen(x.X) == ast.Expr(cs.Call) {
-				return nil, false
+				return hoistFail()
 			}
 			return p.hoistTarget(file, x, cs)
 		case *ast.ReturnStmt:
@@ -1968,38 +2009,38 @@ func (p *Program) hoistableCondCall(cs *CallSite) (ast.Stmt, bool) {
 					break
 				}
 				if !simpleExpr(r) {
-					return nil, false
+					return hoistFail()
 				}
 			}
 			if len(x.Results) == 1 && unparen(x.Results[0]) == ast.Expr(cs.Call) {
-				return nil, false
+				return hoistFail()
 			}
 			return p.hoistTarget(file, x, cs)
 		case *ast.IfStmt:
 			if x.Cond != cur || x.Init != nil {
-				return nil, false
+				return hoistFail()
 			}
 			if unparen(x.Cond) == ast.Expr(cs.Call) {
-				return nil, false
+				return hoistFail()
 			}
 			if u, ok := unparen(x.Cond).(*ast.UnaryExpr); ok && u.Op == token.NOT && unparen(u.X) == ast.Expr(cs.Call) {
-				return nil, false
+				return hoistFail()
 			}
 			switch pp := p.Parent(file, x).(type) {
 			case *ast.BlockStmt, *ast.CaseClause, *ast.CommClause:
 				_ = pp
 			default:
-				return nil, false
+				return hoistFail()
 			}
 			// a single result
 			if tv, ok := info.Types[cs.Call]; !ok || tv.Type == nil {
-				return nil, false
+				return hoistFail()
 			} else if _, isTuple := tv.Type.(*types.Tuple); isTuple {
-				return nil, false
+				return hoistFail()
 			}
 			return x, true
 		}
-		return nil, false
+		return hoistFail()
 	}
 }
 
@@ -2057,4 +2098,12 @@ func bindsOutside(b *ast.BlockStmt) bool {
 	}
 	walk(b, false, false)
 	return found
+}
+
+func hoistFail() (ast.Stmt, bool) {
+	if os.Getenv("GALINT_DEBUG_HOIST") != "" {
+		_, _, line, _ := runtime.Caller(1)
+		fmt.Fprintf(os.Stderr, "normalise: not hoisted (normalise.go:%d)\n", line)
+	}
+	return nil, false
 }
